@@ -155,7 +155,7 @@ def run_case(case):
             wf.initialize()
             for op in case["ops"]:
                 for k, how in op["muts"]:
-                    x = wf.task_list[k]
+                    x = m.tasks[k]
                     r = x.remaining_work_amount
                     if how == "zero":
                         r = 0.0
